@@ -130,7 +130,7 @@ func report(opt *Options, w *World, results []*ObResult, t0 time.Time) int {
 		if len(r.Unsupported) > 0 || len(r.Inconclusive) > 0 || len(r.UnwindHits) > 0 {
 			status += "+inconclusive"
 		}
-		fmt.Printf("  %-40s %-22s paths=%d asserts=%d discharged=%d queries=%d solver=%.1fs wall=%.1fs\n", r.Ob.ID(), status, r.Paths, r.Asserts, r.Discharged, r.Stats.Queries, r.Stats.Time.Seconds(), r.Wall.Seconds())
+		fmt.Printf("  %-40s %-22s paths=%d asserts=%d discharged=%d queries=%d solver=%.1fs models=%d/%.1fs hits=%d wall=%.1fs\n", r.Ob.ID(), status, r.Paths, r.Asserts, r.Discharged, r.Stats.Queries, r.Stats.Time.Seconds(), r.Stats.Models, r.Stats.ModelTime.Seconds(), r.CacheHits, r.Wall.Seconds())
 		for _, u := range r.Unsupported {
 			fmt.Printf("      not-encodable: %s\n", trunc(u, 3000))
 		}
